@@ -168,6 +168,34 @@ func init() {
 		ID:  "C28",
 		New: func() interface{} { return &C28Case{} },
 		Gen: genC28,
+		FromBytes: func(data []byte) interface{} {
+			if len(data) < 8 {
+				return nil
+			}
+			entries := []string{"unmarshal", "unmarshal-ce", "decode", "decode-ce"}
+			c := &C28Case{Entry: entries[int(data[0])%4], Tmpl: []string{"nil", "list", "map"}[int(data[1])%3], EOFWithData: data[2]&1 == 1, Note: "native-fuzz"}
+			for _, b := range data[3:7] {
+				c.Sched = append(c.Sched, int(b%9))
+			}
+			if c.Sched[0] == 0 && c.Sched[1] == 0 && c.Sched[2] == 0 && c.Sched[3] == 0 {
+				c.Sched[3] = 1
+			}
+			for i := 1; i < len(c.Sched); i++ { // never more than two zero-length reads in a row (cyclically)
+				if c.Sched[i] == 0 && c.Sched[i-1] == 0 {
+					c.Sched[i] = 1
+				}
+			}
+			if c.Sched[0] == 0 && c.Sched[3] == 0 {
+				c.Sched[3] = 2
+			}
+			c.Doc = append([]byte{}, data[7:]...)
+			c.Format = "cbe"
+			if len(c.Doc) > 0 && (c.Doc[0] == 'c' || c.Doc[0] == 'C') {
+				c.Format = "cte"
+			}
+			return c
+		},
+		FuzzSeeds: func() [][]byte { return fuzzSeedDocs(7) },
 		Check: func(ci interface{}, ctx *Ctx) error {
 			c := ci.(*C28Case)
 			cfg := newCfg()
